@@ -2340,6 +2340,20 @@ func (f *formatter) nodeHasComment(node ast.Node) bool {
 }
 
 func (f *formatter) setTrailingComments(node ast.Node, comments ast.Comments) {
+	switch node.(type) {
+	case *ast.MessageLiteralNode, *ast.ArrayLiteralNode:
+		// The writers of these literals look up the override on the node itself.
+	default:
+		// Comments are only written for terminal nodes, so for any other composite
+		// node (e.g. "-1" or a compound string) attach the comments to its last token.
+		for {
+			compositeNode, ok := node.(ast.CompositeNode)
+			if !ok || len(compositeNode.Children()) == 0 {
+				break
+			}
+			node = compositeNode.Children()[len(compositeNode.Children())-1]
+		}
+	}
 	f.overrideTrailingComments[node] = comments
 }
 
